@@ -7,6 +7,7 @@ from sqv.nodes import build, mkstate, Tok, Stub
 from smartquery import SqParser, ast_ops
 from smartquery.ast_ops import Op
 from sqv.api import PARSER
+from smartquery.functions import FUNCTIONS
 
 
 def _shape(node):
@@ -51,14 +52,22 @@ def node_unaltered(nch: int, r0: bool, r1: bool, fail: int, calls: int) -> None:
     log = []
     node, stubs = build(kind, op, log, [Tok(r0), Tok(r1), Tok(True), Tok(True)], nch, fail, value='lit')
     before = _shape(node)
+    attrs_before = dict(vars(node))
     host = {'x': (lambda *a: [list(a)]) if kind == 'CallOp' else 5, 'p0': 1}
+    if kind == 'CallOp' and hlib.PARAM.get("builtin"):
+        node.name = 'list'          # a call site that resolves to a real builtin of the function table
+        attrs_before = dict(vars(node))
+        before = _shape(node)
     results = []
     for _ in range(calls):
         try:
-            results.append(node.eval(mkstate(0, 10**6, host=dict(host), functions={'list': lambda *a: [*a]})))
+            results.append(node.eval(mkstate(0, 10**6, host=dict(host), functions=dict(FUNCTIONS))))
         except Exception:
             pass
     assert _same(before, _shape(node)), "evaluation altered the syntax tree node (%s)" % kind
+    after = vars(node)
+    assert set(after) == set(attrs_before) and all(after[k] is attrs_before[k] for k in after), \
+        "evaluation stored something on the syntax tree node (%s)" % kind
     # results of two evaluations of a container-building node never share the container
     if len(results) == 2 and isinstance(results[0], (list, dict)):
         assert results[0] is not results[1], "two evaluations of the same node returned the same mutable container"
@@ -84,12 +93,18 @@ TEXTS = [
     "{'k': [1, [2]]}",
     "a + 1",
     "[1, [a]] | map(v => v)",
+    "len([a, 1]) + a",
 ]
 
 
 class Cache(dict):
-    """host-supplied MutableMapping; the harness decides when it forgets everything (models LRU / always-evicting /
-    unbounded / pre-warmed caches)"""
+    """host-supplied MutableMapping; the harness decides when it forgets everything (models LRU / unbounded /
+    pre-warmed caches) and whether it stores at all (always-evicting / zero-capacity caches drop what they are given)"""
+    stores = True
+
+    def __setitem__(self, k, v):
+        if self.stores:
+            super().__setitem__(k, v)
 
 
 def _mutate(v, depth=0):
@@ -106,10 +121,15 @@ def _mutate(v, depth=0):
         v['host'] = 'host'
 
 
-def _run(parser, cache, steps, mutate):
+def _run(parser, cache, steps, mutate, shadow_step=-1):
     out = []
     names = {'a': 1}
-    for (ti, use_eval, evict) in steps:
+    for si, (ti, use_eval, evict) in enumerate(steps):
+        if si == shadow_step:
+            names = dict(names)
+            names['len'] = _shadow_len          # this call's names shadow a builtin
+        elif 'len' in names:
+            names = {k: v for k, v in names.items() if k != 'len'}
         if evict and cache is not None:
             cache.clear()
         t = TEXTS[ti]
@@ -133,19 +153,26 @@ with hlib.native(unwalled=True):
     _PLAIN = SqParser()
 
 
-def cache_sequence(t2: int, t3: int, e2: bool, e3: bool, k1: bool, k3: bool, mutate: bool, warm: bool) -> None:
+def _shadow_len(x):
+    return 99
+
+
+def cache_sequence(t2: int, t3: int, e2: bool, e3: bool, k1: bool, k3: bool, mutate: bool, warm: bool, stores: bool, sh: int) -> None:
     """
-    pre: 0 <= t2 < 12 and 0 <= t3 < 12
+    pre: 0 <= t2 < 13 and 0 <= t3 < 13 and -1 <= sh <= 2
     post: True
     """
     hlib.enter(locals())
     t1 = hlib.PARAM["t1"]
     if hlib.PARAM.get("quick"):
         hlib.assume(t3 == t1)          # quick tier: the third call repeats the first
-    t2, t3 = hlib.concrete(t2, 0, 11), hlib.concrete(t3, 0, 11)
+    t2, t3, sh = hlib.concrete(t2, 0, 12), hlib.concrete(t3, 0, 12), hlib.concrete(sh, -1, 2)
+    if hlib.PARAM.get("quick"):
+        hlib.assume(sh == -1 or t1 == 12)          # quick tier: builtin shadowing only on the builtin-calling text
     steps = [(t1, True if k1 else False, False), (t2, True, True if e2 else False), (t3, True if k3 else False, True if e3 else False)]
     mutate, warm = (True if mutate else False), (True if warm else False)
     with hlib.native():
+        _CACHE.stores = True
         _CACHE.clear()
         if warm:
             for t in TEXTS:
@@ -153,7 +180,9 @@ def cache_sequence(t2: int, t3: int, e2: bool, e3: bool, k1: bool, k3: bool, mut
                     _CACHED.parse(t)
                 except Exception:
                     pass
-        got = _run(_CACHED, _CACHE, steps, mutate)
-        exp = _run(_PLAIN, None, steps, mutate)
+        _CACHE.stores = True if stores else False
+        got = _run(_CACHED, _CACHE, steps, mutate, sh)
+        exp = _run(_PLAIN, None, steps, mutate, sh)
+        _CACHE.stores = True
     assert got == exp, "a parser with a parse cache behaves differently from one without"
     hlib.done()
